@@ -566,7 +566,8 @@ class Manager:
                     self.removeHandler(state.tick_handler, 'generate_events')
 
         def _on_tick(self, event):
-            if state.timeout == 0:
+            # (<= 0: a timeout that is not a whole number steps over zero)
+            if state.timeout <= 0:
                 self.registerTask(
                     (
                         state.task_event,
